@@ -73,9 +73,10 @@ Section Loop.
         | Some body =>
             match md_assoc n m with
             | Some fragment_depth =>
-                if MAX_LISTS_DEPTH <? depth_so_far + fragment_depth      (* `>` *)
+                let post_fragment_depth := depth_so_far + fragment_depth in
+                if MAX_LISTS_DEPTH <=? post_fragment_depth                (* `>=`, as for fields *)
                 then MdErr
-                else md_loop m max_depth r                   (* the hit is not folded into max_depth *)
+                else md_loop m (N.max max_depth post_fragment_depth) r
             | None =>
                 match rec m depth_so_far body with
                 | MdOk post m' =>
@@ -192,48 +193,37 @@ Fixpoint expand (fuel : nat) (frs : fragmap) (sels : list sel) : option (list se
   | S fuel' => xp_list (expand fuel' frs) frs sels
   end.
 
-(* ---------------------------------------------------------------- the known class (finding D16)
+(* ---------------------------------------------------------------- the code before commit a863a6a (finding D16)
 
-   The same loop, instrumented with ghost state: next to the depth the code memoises for a fragment
-   it records the fragment's true depth, next to max_depth the true maximum [t] (memo hits folded in),
-   and a flag [bad] that is set when the memo-hit branch lets a spread pass although
-   depth_so_far + (true depth of the fragment) reaches MAX_LISTS_DEPTH.
-   MaxDepthProofs.erase_check shows that erasing the ghost state gives check_selection_set. *)
-Definition imemo := list (str * (N * N)).
-
-Inductive ires :=
-| IOk (max_depth : N) (true_depth : N) (m : imemo) (bad : bool)
-| IErr | IPanic | IOutOfFuel.
-
-Section ILoop.
-  Variable rec : imemo -> N -> list sel -> ires.
+   On a memo hit the old code tested `depth_so_far + fragment_depth > MAX_LISTS_DEPTH` and did not fold the
+   hit into max_depth.  Kept only for the witness lemma C25_old_refuted. *)
+Section LoopOld.
+  Variable rec : memo -> N -> list sel -> mdres.
   Variable frs : fragmap.
   Variable depth_so_far : N.
 
-  Fixpoint i_loop (m : imemo) (max_depth t : N) (bad : bool) (l : list sel) {struct l} : ires :=
+  Fixpoint md_loop_old (m : memo) (max_depth : N) (l : list sel) {struct l} : mdres :=
     match l with
-    | [] => IOk max_depth t m bad
+    | [] => MdOk max_depth m
     | SInline sub :: r =>
         match rec m depth_so_far sub with
-        | IOk v t' m' b => i_loop m' (N.max max_depth v) (N.max t t') (bad || b) r
+        | MdOk v m' => md_loop_old m' (N.max max_depth v) r
         | e => e
         end
     | SSpread n :: r =>
         match md_assoc n frs with
-        | None => i_loop m max_depth t bad r
+        | None => md_loop_old m max_depth r
         | Some body =>
             match md_assoc n m with
-            | Some (fragment_depth, true_fd) =>
+            | Some fragment_depth =>
                 if MAX_LISTS_DEPTH <? depth_so_far + fragment_depth
-                then IErr
-                else i_loop m max_depth (N.max t (depth_so_far + true_fd))
-                            (bad || (MAX_LISTS_DEPTH <=? depth_so_far + true_fd)) r
+                then MdErr
+                else md_loop_old m max_depth r
             | None =>
                 match rec m depth_so_far body with
-                | IOk post t' m' b =>
-                    if post <? depth_so_far then IPanic
-                    else i_loop ((n, (post - depth_so_far, t' - depth_so_far)) :: m')
-                                (N.max max_depth post) (N.max t t') (bad || b) r
+                | MdOk post m' =>
+                    if post <? depth_so_far then MdPanic
+                    else md_loop_old ((n, post - depth_so_far) :: m') (N.max max_depth post) r
                 | e => e
                 end
             end
@@ -241,31 +231,28 @@ Section ILoop.
     | SField n sub :: r =>
         let depth := if is_list_field n then depth_so_far + 1 else depth_so_far in
         if is_list_field n && (MAX_LISTS_DEPTH <=? depth)
-        then IErr
+        then MdErr
         else
           match rec m depth sub with
-          | IOk v t' m' b => i_loop m' (N.max max_depth v) (N.max t t') (bad || b) r
+          | MdOk v m' => md_loop_old m' (N.max max_depth v) r
           | e => e
           end
     end.
-End ILoop.
+End LoopOld.
 
-Fixpoint check_instr (fuel : nat) (frs : fragmap) (m : imemo) (d : N) (sels : list sel) : ires :=
+Fixpoint check_selection_set_old (fuel : nat) (frs : fragmap) (m : memo) (d : N) (sels : list sel) : mdres :=
   match fuel with
-  | O => IOutOfFuel
-  | S fuel' => i_loop (check_instr fuel' frs) frs d m d d false sels
+  | O => MdOutOfFuel
+  | S fuel' => md_loop_old (check_selection_set_old fuel' frs) frs d m d sels
   end.
 
-(* Known_C25: the run accepts the operation and, on the way, the memo-hit branch let a spread pass
-   at which depth_so_far + true depth of the fragment >= MAX_LISTS_DEPTH. *)
-Definition known_c25_b (fuel : nat) (frs : fragmap) (op : list sel) : bool :=
-  match check_instr fuel frs [] 0 op with
-  | IOk _ _ _ bad => bad
-  | _ => false
+Definition check_max_depth_old (fuel : nat) (frs : fragmap) (op : list sel) : verdict :=
+  match check_selection_set_old fuel frs [] 0 op with
+  | MdOk _ _ => VOk
+  | MdErr => VErr
+  | MdPanic => VPanic
+  | MdOutOfFuel => VOutOfFuel
   end.
-
-Definition Known_C25 (frs : fragmap) (op : list sel) : Prop :=
-  exists fuel, known_c25_b fuel frs op = true.
 
 (* fuel-free views used by the theorem statements *)
 Definition ExpandedDepth (frs : fragmap) (sels : list sel) (x : N) : Prop :=
@@ -275,20 +262,16 @@ Definition Expansion (frs : fragmap) (sels : list sel) (e : list sel) : Prop :=
 Definition Checks (frs : fragmap) (op : list sel) (v : verdict) : Prop :=
   exists fuel, check_max_depth fuel frs op = v /\ v <> VOutOfFuel.
 
-(* a named fragment spread anywhere inside a selection set (syntactically) *)
-Fixpoint spread_in (m : str) (s : sel) : Prop :=
-  match s with
-  | SField _ sub => (fix go (l : list sel) : Prop :=
-                       match l with [] => False | x :: r => spread_in m x \/ go r end) sub
-  | SInline sub => (fix go (l : list sel) : Prop :=
-                       match l with [] => False | x :: r => spread_in m x \/ go r end) sub
-  | SSpread n => n = m
-  end.
-Definition spread_in_list (m : str) (l : list sel) : Prop := exists s, In s l /\ spread_in m s.
+(* a named fragment is spread somewhere inside a selection set (syntactically, at any nesting) *)
+Inductive SpreadIn (m : str) : list sel -> Prop :=
+| SI_here r : SpreadIn m (SSpread m :: r)
+| SI_field n sub r : SpreadIn m sub -> SpreadIn m (SField n sub :: r)
+| SI_inline sub r : SpreadIn m sub -> SpreadIn m (SInline sub :: r)
+| SI_tl s r : SpreadIn m r -> SpreadIn m (s :: r).
 
 (* validation's NoFragmentCycles, declaratively: defined fragments can be ranked so that every fragment
    only spreads defined fragments of smaller rank *)
 Definition acyclic (frs : fragmap) : Prop :=
   exists rank : str -> nat,
     forall n body, md_assoc n frs = Some body ->
-    forall m body', spread_in_list m body -> md_assoc m frs = Some body' -> (rank m < rank n)%nat.
+    forall m body', SpreadIn m body -> md_assoc m frs = Some body' -> (rank m < rank n)%nat.
